@@ -1059,11 +1059,13 @@ Example C13_commit_overflow_finding :
   let msgs := [{| m_offset := i64_max; m_key := []; m_value := [] |}; {| m_offset := 5; m_key := []; m_value := [] |}] in
   let polled := process_fetch_responses true ex_k 1 [ex_resp (tag "tp") 0 msgs] in
   is_ok (fst polled) = true
-  /\ exists k', consume_message (snd polled) (tag "tp") 0 i64_max = Ok k'
-                 /\ dirty_entries k' = [(tag "tp", 0, i64_max)]
-                 /\ commit_entries true (dirty_entries k') = Panic overflow_tag
-                 /\ is_ok (commit_entries false (dirty_entries k')) = true.
-Proof. vm_compute. split; [reflexivity|]. eexists. split; [reflexivity|]. repeat split; reflexivity. Qed.
+  /\ match consume_message (snd polled) (tag "tp") 0 i64_max with
+     | Ok k' => dirty_entries k' = [(tag "tp", 0, i64_max)]
+                /\ commit_entries true (dirty_entries k') = Panic overflow_tag
+                /\ is_ok (commit_entries false (dirty_entries k')) = true
+     | _ => False
+     end.
+Proof. vm_compute. repeat split; reflexivity. Qed.
 
 (* end to end: commit_consumed of a consumer (with a group) in that state, debug build *)
 Example C13_commit_overflow_finding_e2e :
